@@ -28,6 +28,7 @@ type c05D struct {
 	waiting map[int64]bool
 	drets   [][2]int64
 	ids     []int64
+	parkCh  chan struct{}
 }
 
 func (h *c05D) observe() {
@@ -102,6 +103,26 @@ func (h *c05D) call(c int64, sim, fdir bool) {
 	if sim {
 		ctx = network.WithSimultaneousConnect(ctx, true, "c05")
 	}
+	ctx = network.WithDialPeerTimeout(ctx, time.Hour)
+	// what addrsForDial + rankAddrs answer for this request now (the gater is not left
+	// armed while the harness itself calls addrsForDial)
+	h.gater.mu.Lock()
+	armed := h.gater.park
+	h.gater.park = nil
+	h.gater.mu.Unlock()
+	good, _, aerr := h.s.addrsForDial(ctx, h.p)
+	var rk []network.AddrDelay
+	if aerr == nil {
+		in := append([]ma.Multiaddr{}, good...)
+		if sim {
+			rk = NoDelayDialRanker(in)
+		} else {
+			rk = h.s.dialRanker(in)
+		}
+	}
+	h.gater.mu.Lock()
+	h.gater.park = armed
+	h.gater.mu.Unlock()
 	h.waiting[c] = true
 	go func() {
 		defer func() {
@@ -132,7 +153,34 @@ func (h *c05D) call(c int64, sim, fdir bool) {
 		}
 		return 0
 	}
-	h.line = append(h.line, 1, c, b(sim), b(fdir))
+	h.line = append(h.line, 1, c, b(sim), b(fdir), b(aerr == nil), int64(len(rk)))
+	for _, e := range rk {
+		h.line = append(h.line, h.addrID[string(e.Addr.Bytes())], int64(e.Delay))
+	}
+	h.observe()
+}
+
+// the connection gater parks the next request handling of a worker loop
+func (h *c05D) park() {
+	h.parkCh = make(chan struct{})
+	h.gater.mu.Lock()
+	h.gater.park = h.parkCh
+	h.gater.mu.Unlock()
+	synctest.Wait()
+	h.line = append(h.line, 6)
+	h.observe()
+}
+
+func (h *c05D) release() {
+	h.gater.mu.Lock()
+	h.gater.park = nil
+	h.gater.mu.Unlock()
+	if h.parkCh != nil {
+		close(h.parkCh)
+		h.parkCh = nil
+	}
+	synctest.Wait()
+	h.line = append(h.line, 7)
 	h.observe()
 }
 
@@ -150,9 +198,13 @@ func (h *c05D) result(id int64, kind int) {
 	if pk == nil {
 		return
 	}
+	flag := int64(0)
+	if kind == 1 && !isRelayAddr(h.addrs[id]) {
+		flag = 1
+	}
 	pk.cmd <- c05Cmd{kind: kind}
 	synctest.Wait()
-	h.line = append(h.line, 3, id, int64(kind))
+	h.line = append(h.line, 3, id, int64(kind), flag)
 	h.observe()
 }
 
@@ -170,6 +222,30 @@ func (h *c05D) backoff(id int64) {
 	h.observe()
 }
 
+// header: the FD-consuming addresses of the case
+func (h *c05D) header() {
+	var fds []int64
+	for _, id := range h.ids {
+		if h.s.limiter.shouldConsumeFd(h.addrs[id]) {
+			fds = append(fds, id)
+		}
+	}
+	h.line = append(h.line, int64(len(fds)))
+	h.line = append(h.line, fds...)
+}
+
+func (h *c05D) finishCase() {
+	for _, c := range h.waitingIDs() {
+		if h.waiting[c] {
+			h.cancelCaller(c)
+		}
+	}
+	if h.parkCh != nil {
+		h.release()
+	}
+	h.advance(time.Second)
+}
+
 func (h *c05D) waitingIDs() []int64 {
 	var ws []int64
 	for c := range h.waiting {
@@ -180,24 +256,17 @@ func (h *c05D) waitingIDs() []int64 {
 }
 
 func c05DialPeerRandom(out *verifh.Out, r *verifh.Rand, size int) {
-	BackoffBase, BackoffMax = 24*time.Hour, 48*time.Hour
 	fdl, ppl := int64(1+r.Intn(3)), int64(1+r.Intn(4))
-	h := &c05D{c05W: newC05Swarm(), cancels: map[int64]context.CancelFunc{}, waiting: map[int64]bool{}}
-	h.s.limiter = newDialLimiterWithParams(h.s.dialAddr, int(fdl), int(ppl))
-	h.line = []int64{5, fdl, ppl}
+	h := newC05D(fdl, ppl)
 	// the peer's address set: mixed classes, fixed for the case
 	n := 1 + r.Intn(7)
-	var as []ma.Multiaddr
+	var kinds []int
+	var dls []time.Duration
 	for i := 1; i <= n; i++ {
-		kind := []int{0, 0, 1, 2, 2, 3, 4, 5, 6, 7, 7, 8, 9}[r.Intn(13)]
-		a := h.addr(int64(i), kind)
-		as = append(as, a)
-		h.delays[string(a.Bytes())] = c05Delays[r.Intn(len(c05Delays))]
-		h.order[string(a.Bytes())] = i
-		h.ids = append(h.ids, int64(i))
+		kinds = append(kinds, []int{0, 0, 1, 2, 2, 3, 4, 5, 6, 7, 7, 8, 9}[r.Intn(13)])
+		dls = append(dls, c05Delays[r.Intn(len(c05Delays))])
 	}
-	h.s.peers.AddAddrs(h.p, as, time.Hour)
-	synctest.Wait()
+	h.setAddrs(kinds, dls)
 	// back-off left by earlier dials
 	for _, id := range h.ids {
 		if r.Chance(1, 6) {
@@ -243,15 +312,7 @@ func c05DialPeerRandom(out *verifh.Out, r *verifh.Rand, size int) {
 		}
 	}
 	// the end: remaining callers are cancelled one by one, then time passes
-	for _, c := range h.waitingIDs() {
-		if h.waiting[c] {
-			h.cancelCaller(c)
-		}
-	}
-	h.advance(time.Second)
-	for _, rr := range h.line {
-		_ = rr
-	}
+	h.finishCase()
 	_ = sawErr
 	out.Cover("dialpeer.cases")
 	if maxWait >= 2 {
@@ -263,9 +324,57 @@ func c05DialPeerRandom(out *verifh.Out, r *verifh.Rand, size int) {
 	if sawCancelOthers {
 		out.Cover("dialpeer.cases_cancel_while_others_wait")
 	}
+	h.end(out)
+}
+
+func newC05D(fdl, ppl int64) *c05D {
+	BackoffBase, BackoffMax = 24*time.Hour, 48*time.Hour
+	h := &c05D{c05W: newC05Swarm(), cancels: map[int64]context.CancelFunc{}, waiting: map[int64]bool{}}
+	h.s.limiter = newDialLimiterWithParams(h.s.dialAddr, int(fdl), int(ppl))
+	h.line = []int64{5, fdl, ppl}
+	return h
+}
+
+func (h *c05D) setAddrs(kinds []int, delays []time.Duration) {
+	var as []ma.Multiaddr
+	for i, k := range kinds {
+		a := h.addr(int64(i+1), k)
+		as = append(as, a)
+		h.delays[string(a.Bytes())] = delays[i]
+		h.order[string(a.Bytes())] = i + 1
+		h.ids = append(h.ids, int64(i+1))
+	}
+	h.s.peers.AddAddrs(h.p, as, time.Hour)
+	h.header()
+	synctest.Wait()
+}
+
+func (h *c05D) end(out *verifh.Out) {
 	out.Case(h.line)
 	h.stopped = true
 	h.s.Close()
 	h.s.peers.Close()
 	synctest.Wait()
+}
+
+// Fixed corpus scenario: a worker loop of an earlier activeDial that is slow to return
+// (here: parked in the connection gater, i.e. in user code) runs its deferred
+// clearAllPeerDials(p) after a NEW activeDial for the same peer has queued jobs on the
+// per-peer limit.  perPeerLimit 1, two TCP addresses.
+func c05DialPeerStaleExit(out *verifh.Out) {
+	h := newC05D(4, 1)
+	h.setAddrs([]int{0, 0}, []time.Duration{0, 0})
+	h.call(1, false, false) // worker 1: dials address 1, address 2 queued on the peer limit
+	h.park()
+	h.call(2, false, false) // worker 1 parks in the gater while handling this request
+	h.cancelCaller(1)
+	h.cancelCaller(2) // last caller: shared context cancelled, reqch closed; worker 1 still parked
+	h.call(3, false, false) // a new activeDial and worker 2: address 1 dialed, address 2 queued
+	h.release()             // worker 1 returns: clearAllPeerDials(p)
+	h.result(1, 0)          // address 1 fails; address 2 should be dialed now
+	h.advance(2 * time.Second)
+	h.advance(2 * time.Second)
+	h.finishCase()
+	out.Cover("dialpeer.corpus_stale_worker_exit")
+	h.end(out)
 }
